@@ -64,8 +64,36 @@ check("C01", "model_checking",
       "TLA+ transcription + closed-loop contract (TLC exhaustive), Apalache symbolic int64 check, TLC trace validation of closed-loop runs",
       "DESIGN.md section 4 (C01)")
 
+STREAM_TECH = "TLA+ contract, TLC trace validation of real codec runs; model of DecoderFor / round-robin decoder checked by TLC"
+check("C07", "exploration",
+      "Codec.tla fixes the documented CSV column order/units and JSON field names; streams of random results over the whole representable domain "
+      "are encoded and decoded by each real codec and read by an independent reader of the documented layout written in the harness; TLC "
+      "validates every trace: decoded sequence equals the encoded one then end-of-stream, and every CSV column / JSON member equals the field "
+      "the documentation assigns to it (renderings by reflection over Result, so a new field is included automatically).",
+      "byte-level fidelity is sampled, not explored; nil/empty headers and bodies identified; no CR in text; header values without outer blanks",
+      "TLA+ layout contract, TLC trace validation of real encode/decode runs plus an independent layout reader", "DESIGN.md section 6 (C07)")
+check("C08", "model_checking",
+      "Streams.tla models DecoderFor at byte granularity (tee buffer, trial decoders with read-ahead, replay); TLC checks for all small streams, "
+      "encodings and read-ahead amounts that nothing consumed while sniffing is lost or replayed twice and that two broken variants fail. The real "
+      "DecoderFor runs on real streams through chunking readers (1 byte .. whole, records larger than the buffers) and on junk inputs; all format "
+      "chains up to length 3 (4 thorough) run through the in-process encode command; TLC validates every trace.",
+      "junk inputs are a fixed family plus random bytes; chunking reader returns fixed-size chunks", STREAM_TECH, "DESIGN.md section 6 (C08)")
+check("C09", "fault_enumeration",
+      "Exhaustive over crash points: every byte offset of generated gob and JSON streams (quick: strided above 8 KiB, but every offset within 70 "
+      "bytes of each record boundary) and every record boundary of CSV streams, each decoded with a whole-buffer and a one-byte reader; TLC checks "
+      "each outcome against the truncation contract (exactly the completely written records, then EOF/error; frames come from the bytes written per "
+      "Encode call, so each call is one whole record).",
+      "streams of 1-6 heterogeneous records with bodies up to 70 KB; a decoded record is matched with the original by full field comparison",
+      "fault enumeration over all cut offsets, outcomes validated by TLC against the TLA+ truncation contract", "DESIGN.md section 6 (C09)")
+check("C13", "model_checking",
+      "Streams.tla transcribes NewRoundRobinDecoder; TLC checks for every vector of input lengths (0..3)^k, k<=4, that it refines the union "
+      "contract (each record once, per-input order, EOF only when all are exhausted). Real splits into 1-6 files of unequal lengths and mixed "
+      "encodings are decoded by the library decoder, by decoder(files), the encode command and all report types (report over the files = report "
+      "over their union on the exact fields); TLC validates the traces.",
+      "report equality excludes estimator percentiles (order dependent, C11); plain error texts in the report comparison", STREAM_TECH, "DESIGN.md section 6 (C13)")
+
 UNDER = "check under construction in this round (specification and driver not committed yet)"
-for p in ["C05", "C06", "C07", "C08", "C09", "C13", "C15", "C17", "C18", "C19", "C20"]:
+for p in ["C05", "C06", "C15", "C17", "C18", "C19", "C20"]:
     NA[p] = UNDER
 NA["C16"] = ("arbitrary-byte crash/hang freedom of parsers has no abstract state machine to specify; deciding it means fuzzing, "
              "a different technique (DESIGN.md section 9)")
